@@ -11,9 +11,11 @@ more than 64 live elements (so that the list's level count grows).
 
 def gen_case(rng, maxops):
     mode = rng.choice(["equal", "mixed", "mixed", "grow", "grow", "drain", "extremes", "reinsert", "remove"])
-    n = rng.choice([4, 10, 30, 80, maxops, maxops])
+    # the dump after every mutating op makes a case cost ~n^3: long cases (thorough tier) are rare
+    mid = min(maxops, 150)
+    n = rng.choice([4, 10, 30, 80, mid, mid])
     if mode == "grow":
-        n = maxops
+        n = maxops if rng.random() < 0.15 else mid
     krange = {"equal": 3, "mixed": 20, "grow": rng.choice([5, 40, 1000]), "drain": 8,
               "extremes": 50, "reinsert": 6, "remove": 10}[mode]
     ops = []
